@@ -34,7 +34,8 @@ CLAIMS = {
             "every input type is a subtype (for all values) of the result, for every list of well-formed types; make_typed_dict / field_annotations / is_anonymous_typed_dict against the raw "
             "nested-TypedDict encoding; RewriteAnonymousTypedDictToDict widening; shrink_traced_types. Order/multiplicity independence is decided by the bounded tier "
             "(all permutations / duplications of small multisets of inferred types).",
-            TRUST + "T-VALUES / T-TYPES axioms (validated against the real typing module by the bounded tier); order independence bounded."),
+            TRUST + "T-VALUES / T-TYPES axioms (validated against the real typing module by the bounded tier); order independence bounded; recorded known finding: values at a yield position are joined by a bare Union inside one call "
+            "(CallTrace.add_yield_type), so with k > 0 the merged yield type of dict-yielding generators depends on how often the call was seen."),
     "C07": ("proof", "6.C07",
             "Every shipped rewriter method (generic traversal with its 'rewrite_' + name dispatch rebuilt from the AST, RemoveEmptyContainers, RewriteConfigDict, "
             "RewriteLargeUnion, RewriteAnonymousTypedDictToDict, RewriteGenerator, RewriteMostSpecificCommonBase with _compute_bases / _merge_common_bases and the functools.reduce fold, "
